@@ -33,11 +33,13 @@ import os
 import shutil
 import tempfile
 import time
+from hashlib import sha256
 
 import asyncssh
 from asyncssh.channel import SSHClientChannel
-from asyncssh.packet import Boolean, Byte, String, UInt32
-from asyncssh.public_key import SSHLocalKeyPair
+from asyncssh.packet import Boolean, Byte, MPInt, String, UInt32
+from asyncssh.public_key import SSHKeyPair, SSHLocalKeyPair
+from asyncssh.public_key import decode_ssh_public_key
 
 from harness import rawpeer, tlc
 from harness.vloop import new_loop, close_loop, Deadlock
@@ -66,8 +68,93 @@ def K():
     return _keys
 
 
-def pub(name):
-    return K()[name].export_public_key('openssh').decode().strip()
+# ---------------------------------------------------------------------------
+# FIDO security keys, simulated in software (PROTOCOL.u2f): the "token" holds
+# an Ed25519 / P-256 private key and produces the U2F-shaped signature over
+#   SHA256(application) || flags || counter || SHA256(message)
+# with the flags byte (user presence 0x01, user verification 0x04), counter
+# and application chosen by the row.
+# ---------------------------------------------------------------------------
+
+SK_UP, SK_UV = 0x01, 0x04
+SK_APP, SK_OTHER_APP = 'ssh:', 'ssh:other'
+SK_ALGS = {'sk-ed25519': b'sk-ssh-ed25519@openssh.com',
+           'sk-ecdsa': b'sk-ecdsa-sha2-nistp256@openssh.com'}
+
+
+class SoftToken:
+    def __init__(self, ktype):
+        from cryptography.hazmat.primitives import serialization as ser
+        from cryptography.hazmat.primitives.asymmetric import ec, ed25519
+        self.ktype, self.alg = ktype, SK_ALGS[ktype]
+        if ktype == 'sk-ed25519':
+            self._priv = ed25519.Ed25519PrivateKey.generate()
+            self._pub = String(self._priv.public_key().public_bytes(
+                ser.Encoding.Raw, ser.PublicFormat.Raw))
+        else:
+            self._priv = ec.generate_private_key(ec.SECP256R1())
+            self._pub = String(b'nistp256') + String(
+                self._priv.public_key().public_bytes(
+                    ser.Encoding.X962, ser.PublicFormat.UncompressedPoint))
+        self.pubkey = self.public(SK_APP)
+
+    def public(self, application):
+        """The public key as an SSHKey (the application id is part of it)."""
+        return decode_ssh_public_key(String(self.alg) + self._pub +
+                                     String(application))
+
+    def sign(self, data, flags, counter, application):
+        signed = sha256(application.encode()).digest() + Byte(flags) + \
+            UInt32(counter) + sha256(data).digest()
+        if self.ktype == 'sk-ed25519':
+            sig = self._priv.sign(signed)
+        else:
+            from cryptography.hazmat.primitives import hashes
+            from cryptography.hazmat.primitives.asymmetric import ec, utils
+            r, s_ = utils.decode_dss_signature(
+                self._priv.sign(signed, ec.ECDSA(hashes.SHA256())))
+            sig = MPInt(r) + MPInt(s_)
+        return String(self.alg) + String(sig) + Byte(flags) + UInt32(counter)
+
+
+class SoftSKPair(SSHKeyPair):
+    """What the client holds: the token, optionally a certificate over its
+    public key, and how the token is going to answer."""
+
+    def __init__(self, token, cert, sig):
+        alg = token.alg
+        super().__init__(alg, alg, (alg,), (alg,), token.pubkey.public_data,
+                         None, cert)
+        self._token = token
+        self._flags = (SK_UP if sig['up'] else 0) | (SK_UV if sig['uv'] else 0)
+        self._app = SK_APP if sig['app'] == 'same' else SK_OTHER_APP
+
+    def sign(self, data):
+        return self._token.sign(data, self._flags, 7, self._app)
+
+
+def token(ktype):
+    K()
+    if ktype not in _keys:
+        _keys[ktype] = SoftToken(ktype)
+    return _keys[ktype]
+
+
+def user_public(ktype='ed25519'):
+    if ktype in SK_ALGS:
+        return token(ktype).pubkey
+    return K()['user'].convert_to_public()
+
+
+def pub(name, ktype='ed25519'):
+    """authorized_keys text of the named key; for a security-key row "user"
+    is the token's key and "user-otherapp" the same public value under
+    another application id."""
+    if name in ('user', 'user-otherapp') and ktype in SK_ALGS:
+        key = token(ktype).public(SK_APP if name == 'user' else SK_OTHER_APP)
+    else:
+        key = K()['other' if name == 'user-otherapp' else name]
+    return key.export_public_key('openssh').decode().strip()
 
 
 def scratch():
@@ -84,7 +171,7 @@ def quote(v):
     return '"' + v.replace('\\', '\\\\').replace('"', '\\"') + '"'
 
 
-def entry_line(e, keyname):
+def entry_line(e, keyname, ktype='ed25519'):
     """authorized_keys line for an abstract entry e (dict with flags: list of
     flag tokens in order, cmd, open: list of 'host:port', frm: list of from=
     values, princ: list of principals= values, env: list of 'N=V', ca: bool)."""
@@ -102,15 +189,19 @@ def entry_line(e, keyname):
         opts.append('principals=' + quote(p))
     for v in e.get('env', ()):
         opts.append('environment=' + quote(v))
-    line = pub(keyname)
+    if keyname is None:
+        return ','.join(opts)
+    line = pub(keyname, ktype)
     return (','.join(opts) + ' ' if opts else '') + line
 
 
-def make_cert(c):
+def make_cert(c, ktype='ed25519'):
     """Real OpenSSH user certificate for the abstract certificate c."""
     key = (tuple(sorted(c.get('ext', ()))), c.get('force'),
            tuple(c.get('src') or ()), tuple(c.get('principals', ())),
-           c.get('valid', 'ok'), c.get('ctype', 'user'), c.get('ca', 'ca'))
+           c.get('valid', 'ok'), c.get('ctype', 'user'), c.get('ca', 'ca'),
+           ktype, bool(c.get('notouch')))
+    subject = user_public(ktype)
     if key in _cert_cache:
         return _cert_cache[key]
     now = int(time.time())
@@ -122,17 +213,18 @@ def make_cert(c):
     ext = set(c.get('ext', ()))
     if c.get('ctype', 'user') == 'host':
         cert = ca.generate_host_certificate(
-            K()['user'], 'row', principals=list(c.get('principals', ())),
+            subject, 'row', principals=list(c.get('principals', ())),
             valid_after=after, valid_before=before)
     else:
         cert = ca.generate_user_certificate(
-            K()['user'], 'row', principals=list(c.get('principals', ())),
+            subject, 'row', principals=list(c.get('principals', ())),
             valid_after=after, valid_before=before,
             force_command=c.get('force'), source_address=c.get('src') or None,
             permit_x11_forwarding='X11-forwarding' in ext,
             permit_agent_forwarding='agent-forwarding' in ext,
             permit_port_forwarding='port-forwarding' in ext,
-            permit_pty='pty' in ext, permit_user_rc='user-rc' in ext)
+            permit_pty='pty' in ext, permit_user_rc='user-rc' in ext,
+            touch_required=not c.get('notouch'))
     _cert_cache[key] = cert
     return cert
 
@@ -165,7 +257,8 @@ def run_case(case, ops=PERM_OPS, requests=(), dests=(), client_env=None):
     steps = case.get('steps')           # request sequence from a raw client
     files = None                        # user -> SSHAuthorizedKeys
     k = K()
-    user_pub = k['user'].convert_to_public()
+    ktype = case.get('ktype', 'ed25519')
+    user_pub = user_public(ktype)
     cas = {n: k[n].convert_to_public() for n in ('ca', 'otherca')}
 
     class Sess(asyncssh.SSHServerSession):
@@ -244,7 +337,8 @@ def run_case(case, ops=PERM_OPS, requests=(), dests=(), client_env=None):
             log.append(('streamlocal-forward', listen_path))
             return False
 
-    lines = [entry_line(e, e.get('key', 'ca' if e.get('ca') else 'user'))
+    lines = [entry_line(e, e.get('key', 'ca' if e.get('ca') else 'user'),
+                        ktype)
              for e in case.get('entries', ())]
     skw = {}
     out = {'accepted': False, 'server_accepted': False, 'granted': None,
@@ -268,6 +362,11 @@ def run_case(case, ops=PERM_OPS, requests=(), dests=(), client_env=None):
     ckw = dict(client_keys=None, agent_path=None)
     if method == 'password':
         ckw['password'] = 'pw-' + user
+    elif ktype in SK_ALGS:
+        cert = case.get('cert')
+        ckw['client_keys'] = [SoftSKPair(
+            token(ktype), None if cert is None else make_cert(cert, ktype),
+            case.get('sig') or dict(up=True, uv=False, app='same'))]
     elif case.get('cert') is not None:
         # the certificate ONLY (a (key, cert) tuple would make the client
         # offer the plain key as well: a second credential)
@@ -532,7 +631,8 @@ def _cert(c):
                 force=None if c['force'] == '-' else cmd_text(c['force']),
                 src=sorted(_set(c['src'])),
                 principals=sorted(_set(c['principals'])),
-                valid=c['valid'], ctype=c['ctype'], ca=c['ca'])
+                valid=c['valid'], ctype=c['ctype'], ca=c['ca'],
+                notouch=c.get('notouch', False))
 
 
 HIST_DESTS = ['h1:80', 'h2:22']
@@ -571,9 +671,12 @@ def to_case(cred):
     cert = _cert(cred['cert'])
     case = dict(method=cred['method'], entries=entries, cert=cert,
                 cb_key=cred['cbkey'], cb_ca=cred['cbca'], user=cred['user'],
-                addr=cred['addr'])
+                addr=cred['addr'], ktype=cred.get('ktype', 'ed25519'),
+                sig=cred.get('sig'))
     kw = {'ops': PERM_OPS}
     sec = cred['sec']
+    if sec == 'sk':
+        kw['ops'] = ['pty']             # admission is what these rows judge
     if sec == 'cmd':
         kw['ops'] = PERM_OPS + ['pty-api']
         kw['requests'] = [req_name('exec', 'rc'), 'shell', 'subsystem:sub']
@@ -591,11 +694,16 @@ def to_case(cred):
 def describe(case):
     parts = [case['method'], case['user'] + '@' + case['addr']]
     for e in case['entries']:
-        parts.append('entry(' + entry_line(e, e['key']).rsplit(' ', 2)[0]
-                     .replace(' ssh-ed25519', '') + ' <' + e['key'] + '>)')
+        parts.append('entry(' + entry_line(e, None) + ' <' + e['key'] + '>)')
     c = case['cert']
+    if case.get('ktype', 'ed25519') in SK_ALGS:
+        g = case['sig']
+        parts.insert(1, f'{case["ktype"]}[up={int(g["up"])},uv={int(g["uv"])}'
+                        f',app={g["app"]}]')
     if c is not None:
         extra = [f'{k}={c[k]}' for k in ('force', 'src') if c[k]]
+        if c.get('notouch'):
+            extra.append('no-touch-required')
         if c['valid'] != 'ok' or c['ctype'] != 'user' or c['ca'] != 'ca':
             extra.append(f'{c["valid"]}/{c["ctype"]}/{c["ca"]}')
         parts.append('cert{' + ','.join(c['ext']) + '}' +
